@@ -173,7 +173,8 @@ def modernize(obj):
     orders with the old single letters: translate (idempotent)."""
     if isinstance(obj, dict):
         for k, v in obj.items():
-            if (k == 'order' and isinstance(v, list)
+            if (k in ('order', 'source', 'target')
+                    and isinstance(v, list)
                     and all(isinstance(x, str) for x in v)):
                 obj[k] = [NAME_OF.get(x, x) for x in v]
             else:
